@@ -2,6 +2,7 @@ package main
 
 import (
 	"bytes"
+	"context"
 	"fmt"
 	"io"
 	"math/rand"
@@ -10,6 +11,7 @@ import (
 	"net/url"
 	"strings"
 	"sync"
+	"time"
 
 	"github.com/labstack/echo/v4"
 	"github.com/labstack/echo/v4/middleware"
@@ -59,6 +61,17 @@ func genC19(rng *rand.Rand, n int, emit func(Case), dist map[string]int) {
 	}
 	servers := map[string]*httptest.Server{}
 	urls := map[string]*url.URL{}
+	// h0 accepts the connection and never answers (until the client gives up): used only with RetryCount = 0
+	hung := httptest.NewServer(http.HandlerFunc(func(w http.ResponseWriter, r *http.Request) {
+		select {
+		case <-r.Context().Done():
+		case <-time.After(2 * time.Second):
+		}
+	}))
+	defer hung.Close()
+	hu, _ := url.Parse(hung.URL)
+	urls["h0"] = hu
+	isDown := func(nm string) bool { return nm[0] == 'd' || nm[0] == 'h' }
 	names := []string{"a0", "a1", "a2", "a3", "d0", "d1", "d2"}
 	for _, nm := range names {
 		s := mkAlive(nm)
@@ -85,6 +98,11 @@ func genC19(rng *rand.Rand, n int, emit func(Case), dist map[string]int) {
 		for _, k := range perm[:1+rng.Intn(4)] {
 			init = append(init, names[k])
 		}
+		withHung := R == 0 && rng.Intn(6) == 0
+		if withHung {
+			init = append(init, "h0")
+			dist["histories_with_a_hung_upstream"]++
+		}
 		var tgts []*middleware.ProxyTarget
 		for _, nm := range init {
 			tgts = append(tgts, &middleware.ProxyTarget{Name: nm, URL: urls[nm]})
@@ -108,7 +126,7 @@ func genC19(rng *rand.Rand, n int, emit func(Case), dist map[string]int) {
 		firstCount := map[string]int{}
 		stable := true // list unchanged so far and all alive: fairness check applies
 		for _, nm := range init {
-			if nm[0] == 'd' {
+			if isDown(nm) {
 				stable = false
 			}
 		}
@@ -158,7 +176,7 @@ func genC19(rng *rand.Rand, n int, emit func(Case), dist map[string]int) {
 				p := paths[rng.Intn(len(paths))]
 				q := queries[rng.Intn(len(queries))]
 				if rewriting && rng.Intn(2) == 0 {
-					p = []string{"/api/", "/api/a%2Fb", "/api/v1", "/files/", "/files/x/y.txt", "/pair/left/of/right", "/pair/l/of/", "/api"}[rng.Intn(8)]
+					p = []string{"/api/", "/api/a%2Fb", "/api/v1", "/files/", "/files/x/y.txt", "/pair/left/of/right", "/pair/l/of/", "/api", "/v1/api/users", "/x/files/y.txt"}[rng.Intn(10)]
 				}
 				target := p
 				if q != "" {
@@ -167,11 +185,12 @@ func genC19(rng *rand.Rand, n int, emit func(Case), dist map[string]int) {
 				// the documented rewrite: `*` captures (possibly nothing) up to the end of the request URI
 				upstreamURI := target
 				if rewriting {
+					// (a rule without a leading ^ matches wherever its literal text first occurs in the request URI)
 					switch {
-					case strings.HasPrefix(target, "/api/"):
-						upstreamURI = "/" + target[len("/api/"):]
-					case strings.HasPrefix(target, "/files/"):
-						upstreamURI = "/static/" + target[len("/files/"):]
+					case strings.Contains(target, "/api/"):
+						upstreamURI = "/" + target[strings.Index(target, "/api/")+len("/api/"):]
+					case strings.Contains(target, "/files/"):
+						upstreamURI = "/static/" + target[strings.Index(target, "/files/")+len("/files/"):]
 					case strings.HasPrefix(target, "/pair/") && strings.Contains(target, "/of/"):
 						rest := target[len("/pair/"):]
 						k := strings.Index(rest, "/of/")
@@ -186,6 +205,12 @@ func genC19(rng *rand.Rand, n int, emit func(Case), dist map[string]int) {
 					body = ""
 				}
 				req := httptest.NewRequest(method, target, rd)
+				if withHung {
+					// the client gives up after 15 ms: a target that does not answer in time is a failed attempt (502), not a client abort
+					ctx, cancel := context.WithTimeout(req.Context(), 15*time.Millisecond)
+					defer cancel()
+					req = req.WithContext(ctx)
+				}
 				custom := fmt.Sprintf("c-%d", rng.Intn(1000))
 				req.Header.Set("X-Custom", custom)
 				rec := httptest.NewRecorder()
@@ -226,7 +251,7 @@ func genC19(rng *rand.Rand, n int, emit func(Case), dist map[string]int) {
 				}
 				allDead := true
 				for _, a := range attempts {
-					if a[0] != 'd' {
+					if !isDown(a) {
 						allDead = false
 					}
 				}
@@ -250,7 +275,7 @@ func genC19(rng *rand.Rand, n int, emit func(Case), dist map[string]int) {
 						}
 					}
 					for i, a := range attempts[:len(attempts)-1] {
-						if a[0] != 'd' {
+						if !isDown(a) {
 							ok, why = false, fmt.Sprintf("attempt %d at alive target %s was retried", i, a)
 						}
 					}
@@ -292,7 +317,7 @@ func genC19(rng *rand.Rand, n int, emit func(Case), dist map[string]int) {
 				}
 				var dead []string
 				for _, c := range cur {
-					if c[0] == 'd' {
+					if isDown(c) {
 						dead = append(dead, c)
 					}
 				}
